@@ -94,6 +94,56 @@ Proof.
     + exact DJ.
 Qed.
 
+(* a value the specification accepts ([dict_ok]: no mapping is spliced into more text) is substituted by the model
+   exactly as before the dictionary branch: [subst_d] = [subst] *)
+Lemma dict_ref_none e loc keep ign : forall v pre,
+  forallb (fun t => match t with
+                    | Param x => mem x keep || negb (bound_to_dict e x)
+                    | POut x _ _ => negb (bound_to_dict e x)
+                    | _ => true end) v = true ->
+  (forall x, In x (refs_of v) -> mem x ign = mem x keep) ->
+  dict_ref e ign pre (map (abs_out loc) v) = DNone.
+Proof.
+  induction v as [|t r IH]; intros pre F IG; cbn in *; [reflexivity|].
+  apply andb_true_iff in F. destruct F as [F1 F].
+  assert (forall x, In x (refs_of r) -> mem x ign = mem x keep) as IG'.
+  { intros x I. apply IG. unfold refs_of in *. cbn. apply in_app_iff. right. exact I. }
+  destruct t as [s|x|p m|x p m]; cbn.
+  - apply IH; auto.
+  - rewrite (IG x) by (unfold refs_of; cbn; left; reflexivity).
+    destruct (mem x keep); [apply IH; auto|]. cbn in F1. unfold bound_to_dict in F1.
+    destruct (lookup x e) as [vx|]; [|reflexivity].
+    destruct (is_dict vx); [discriminate|apply IH; auto].
+  - apply IH; auto.
+  - rewrite (IG x) by (unfold refs_of; cbn; left; reflexivity).
+    destruct (mem x keep); [apply IH; auto|]. unfold bound_to_dict in F1.
+    destruct (lookup x e) as [vx|]; [|reflexivity].
+    destruct (is_dict vx); [discriminate|apply IH; auto].
+Qed.
+
+Lemma subst_d_ev e loc keep ign v :
+  dict_ok e keep v = true ->
+  (forall x, In x (refs_of v) -> mem x ign = mem x keep) ->
+  subst_d e ign (map (abs_out loc) v) = subst e ign (map (abs_out loc) v).
+Proof.
+  intros DK IG. unfold subst_d.
+  assert (forall w, (forall x, In x (refs_of w) -> mem x ign = mem x keep) ->
+            forallb (fun t => match t with
+                              | Param x => mem x keep || negb (bound_to_dict e x)
+                              | POut x _ _ => negb (bound_to_dict e x)
+                              | _ => true end) w = true ->
+            match dict_ref e ign true (map (abs_out loc) w) with
+            | DSplice => SUnknown | DWhole vx => SOk vx | DNone => subst e ign (map (abs_out loc) w) end
+            = subst e ign (map (abs_out loc) w)) as GEN.
+  { intros w IGw F. rewrite (dict_ref_none _ _ _ _ _ _ F IGw). reflexivity. }
+  destruct v as [|t r]; [apply GEN; [exact IG|exact DK]|].
+  destruct t as [s|x|p m|x p m]; try (apply GEN; [exact IG|exact DK]).
+  destruct r as [|t2 r]; [|apply GEN; [exact IG|exact DK]].
+  cbn. destruct (mem x ign); [reflexivity|].
+  destruct (lookup x e) as [vx|]; [|reflexivity].
+  destruct (is_dict vx); [rewrite app_nil_r; reflexivity|reflexivity].
+Qed.
+
 (* what evaluation in a good environment returns *)
 Lemma ev_tok_good e loc sib keep t h :
   good_env e -> (exists l', loc = ENTRY :: l') \/ sib = None ->
@@ -207,6 +257,7 @@ Lemma resolve_value f scs cur loc sib v o p :
   absolutise loc o = o /\ ground o /\ absolute o.
 Proof.
   intros FS G L NE NR EV. unfold ev in EV.
+  destruct (dict_ok (s_pars p) [] v) eqn:DK; [|discriminate]. cbn [negb] in EV.
   destruct (ev_toks (s_pars p) loc (Some sib) [] v) as [o0|] eqn:T; [|discriminate].
   destruct (shape_ok o0) eqn:SH; [|discriminate]. inversion EV; subst o0. clear EV.
   pose proof (ev_toks_sibling _ _ _ _ _ _ T) as SIB.
@@ -220,6 +271,10 @@ Proof.
     - intros x I. cbn. rewrite orb_false_r. destruct (String.eqb x "replica") eqn:E; [|reflexivity].
       apply String.eqb_eq in E. subst x. exfalso. apply NR. exact I.
     - intros x M. discriminate. }
+  assert (subst_d (s_pars p) ["replica"] (map (abs_out loc) v) = SOk o) as SBD.
+  { rewrite (subst_d_ev _ _ [] _ _ DK); [exact SB|].
+    intros x I. cbn. rewrite orb_false_r. destruct (String.eqb x "replica") eqn:E; [|reflexivity].
+    apply String.eqb_eq in E. subst x. exfalso. apply NR. exact I. }
   split; [|split; [apply absolutise_absolute; exact AB | split; [exact GR|exact AB]]].
   destruct (needs_more ["replica"] (map (abs_out loc) v)) eqn:NM.
   - eapply resolve_one_round; eauto.
@@ -256,6 +311,56 @@ Lemma resolve_scope_unfold st sc :
   {| r_scopes := replace_scope (set_pars sc pars) (r_scopes st); r_errs := r_errs st ++ errs;
      r_unsupp := r_unsupp st || uns |}.
 Proof. reflexivity. Qed.
+
+(* REJECTION at one workflow level: an argument of the step whose scope is [sc] that splices a mapping
+   (dictionary) parameter of the calling workflow into more text makes resolve_scope record the location
+   <execute entry>/signature/parameters/i -- whatever the other arguments are *)
+Definition errs_of (a : list (string * value) * list loc * bool) : list loc := snd (fst a).
+
+Lemma rs_step_mono scs sc up sib acc inv :
+  exists e, errs_of (rs_step scs sc up sib acc inv) = errs_of acc ++ e.
+Proof.
+  destruct acc as [[pars errs] uns]. destruct inv as [i [n v]]. unfold rs_step.
+  destruct (forallb (sibling_ok sib) v); destruct (resolve_loop _ _ _ _ _); cbn; eexists; reflexivity.
+Qed.
+
+Lemma rs_fold_mono scs sc up sib : forall l acc,
+  exists e, errs_of (fold_left (rs_step scs sc up sib) l acc) = errs_of acc ++ e.
+Proof.
+  induction l as [|x l IH]; intros acc; cbn.
+  - exists []. rewrite app_nil_r. reflexivity.
+  - destruct (IH (rs_step scs sc up sib acc x)) as [e2 E2]. destruct (rs_step_mono scs sc up sib acc x) as [e1 E1].
+    exists (e1 ++ e2). rewrite E2, E1, app_assoc. reflexivity.
+Qed.
+
+Lemma rs_step_splice scs sc up sib acc i n v p :
+  forallb (sibling_ok sib) v = true ->
+  find_scope (parent_loc (s_loc sc)) scs = Some p -> s_loc sc <> [] ->
+  dict_ref (s_pars p) ["replica"] true (absolutise up v) = DSplice ->
+  errs_of (rs_step scs sc up sib acc (i, (n, v)))
+  = errs_of acc ++ [s_dsl sc ++ [LS "signature"; LS "parameters"; LN i]].
+Proof.
+  intros SIB FS NE D. destruct acc as [[pars errs] uns]. unfold rs_step. rewrite SIB.
+  destruct (s_loc sc) as [|h t] eqn:SL; [contradiction|]. cbn [length].
+  rewrite (resolve_loop_splice _ _ _ _ _ _ FS D). reflexivity.
+Qed.
+
+Lemma resolve_scope_splice st sc p i n v :
+  In (i, (n, v)) (enum (s_pars sc)) ->
+  forallb (sibling_ok (rs_siblings (r_scopes st) sc)) v = true ->
+  find_scope (parent_loc (s_loc sc)) (r_scopes st) = Some p -> s_loc sc <> [] ->
+  dict_ref (s_pars p) ["replica"] true (absolutise (parent_loc (s_loc sc)) v) = DSplice ->
+  In (s_dsl sc ++ [LS "signature"; LS "parameters"; LN i]) (r_errs (resolve_scope st sc)).
+Proof.
+  intros I SIB FS NE D. rewrite resolve_scope_unfold.
+  apply in_split in I. destruct I as [l1 [l2 E]]. rewrite E, fold_left_app. cbn [fold_left].
+  set (a1 := fold_left _ l1 _).
+  destruct (rs_fold_mono (r_scopes st) sc (parent_loc (s_loc sc)) (rs_siblings (r_scopes st) sc) l2
+              (rs_step (r_scopes st) sc (parent_loc (s_loc sc)) (rs_siblings (r_scopes st) sc) a1 (i, (n, v)))) as [e2 E2].
+  rewrite (rs_step_splice _ _ _ _ a1 _ _ _ _ SIB FS NE D) in E2.
+  destruct (fold_left _ l2 _) as [[pars errs] uns]. cbn in E2. cbn [r_errs]. subst errs.
+  apply in_app_iff. right. apply in_app_iff. left. apply in_app_iff. right. left. reflexivity.
+Qed.
 
 (* the relation "the model's three phases turn v into v' without error" for every parameter *)
 Definition par_ok (scs : list scope) (sc : scope) (up siblings : list string) (nv nv' : string * value) : Prop :=
@@ -332,6 +437,7 @@ Lemma comp_args_ev N sc c args :
   comp_args N sc c = (args, [], false) /\ (forall x, In x (refs_of args) -> mem x (c_vars c) = true).
 Proof.
   intros G DJ EV. unfold ev in EV.
+  destruct (dict_ok (s_pars sc) (c_vars c) (c_args c)) eqn:DK; [|discriminate]. cbn [negb] in EV.
   destruct (ev_toks (s_pars sc) [] None (c_vars c) (c_args c)) as [o|] eqn:T; [|discriminate].
   destruct (shape_ok o); [|discriminate]. inversion EV; subst o. clear EV.
   destruct (ev_toks_good _ _ _ _ _ _ G (or_intror eq_refl) T) as [_ [RF _]].
@@ -339,8 +445,11 @@ Proof.
   assert (subst (s_pars sc) (c_vars c) (c_args c) = SOk args) as SB.
   { rewrite <- (map_abs_out_nil (c_args c)). eapply subst_ev; [exact T| |exact DJ]. reflexivity. }
   assert (needs_more (c_vars c) args = false) as NM by (apply needs_more_false; exact RF).
+  assert (subst_d (s_pars sc) (c_vars c) (c_args c) = SOk args) as SBD.
+  { rewrite <- (map_abs_out_nil (c_args c)). rewrite (subst_d_ev _ _ (c_vars c) _ _ DK); [|reflexivity].
+    rewrite map_abs_out_nil. exact SB. }
   unfold comp_args. destruct (needs_more (c_vars c) (c_args c)) eqn:NM0.
-  - rewrite SB, NM. reflexivity.
+  - rewrite SBD, NM. reflexivity.
   - rewrite (subst_closed_id _ _ _ _ NM0 SB). reflexivity.
 Qed.
 
